@@ -16,6 +16,7 @@ repair is a separate small patch to /repo, and each place is marked `REPAIRED #n
   #33 layout.go fixStackMerge   `EndPos` not reduced by merged glyphs after the last input
   C06-ch3 nested.go ChainedSeqContext3.apply recorded the first input position twice in `InputPos`
   #32 layout.go Apply           GSUB type 8 lookups were applied front to back
+  C06-ch3skip nested.go ChainedSeqContext3.apply skip loops stopped one glyph early
   C06-attach gpos4.go, gpos6.go the mark offsets ignored the offsets of the glyph attached to
 
 Every Go index expression that is not dominated by a guard is an `idx`/`idxI` here and
@@ -184,7 +185,9 @@ def chain3Input (kp : Nat → Bool) (seq : List Glyph) :
     if (p : Int) + cs.length ≥ limit then .ok none else
     let g ← idx "chain3:seq[p]" seq p
     if !setVal c g.gid then .ok none else
-    let q ← skipFwd kp (seq.drop (p + 1)) (p + 1) limit cs.length
+    -- REPAIRED C06-ch3skip: all ignored glyphs are skipped (was: `needed = cs.length`, which
+    -- stopped one glyph early and tested an ignored glyph against the next coverage set)
+    let q ← skipFwd kp (seq.drop (p + 1)) (p + 1) limit 0
     match ← chain3Input kp seq cs q limit with
     | some (ps, last) => .ok (some (p :: ps, last))
     | none => .ok none
@@ -386,8 +389,12 @@ def applySub (kp : Nat → Bool) (st : St) (a : Nat) (b : Int) :
     if !matchBack kp (back.map setVal) (st.seq.take a).reverse then .ok none else
     match ← chain3Input kp st.seq input a b with
     | none => .ok none
-    | some (ps, next) =>
-      match ← chain3Input kp st.seq look next st.seq.length with
+    | some (ps, next) => do
+      -- REPAIRED C06-ch3skip: the lookahead may lie beyond `b`; ignored glyphs at the window end
+      -- are skipped first (was: the glyph at `next` was tested even if ignored)
+      let p0 ← (if look.isEmpty then pure next
+                else skipFwd kp (st.seq.drop next) next st.seq.length 0)
+      match ← chain3Input kp st.seq look p0 st.seq.length with
       | none => .ok none
       -- REPAIRED C06-ch3: `InputPos` is `ps` (was `a :: ps`: `matchPos` started as `[a]` and the
       -- input loop appended `a` again, so sequence index 1 addressed the first input glyph)
